@@ -2,6 +2,7 @@
 C14 — header import leaves the stores equal to the file, or consistent on failure.
 -/
 import Neutrino.Lemmas.ImportChain
+import Neutrino.Lemmas.ImportValidate
 import Neutrino.Gen.Import
 namespace Neutrino.Import
 
@@ -397,6 +398,21 @@ theorem C14_success_chain_valid_partial (F : File) (cfg : Cfg) (st : Stores) (hh
     simp only [chainOk, e3, List.drop_length, List.all_nil, Bool.and_true, Bool.or_eq_true, Bool.not_eq_true']
     cases connected B <;> simp
 
+/-- **The validator's obligations.**  `validateBlocks`, the closed form the model
+of `Import` uses, is exactly the validator's walk over the file in batches of the
+configured size (`ValidateBatch` inside a batch — a single-header batch is
+`ValidateSingle`d, a longer one pair-checks every header from its second on —
+and `ValidatePair(last header of the previous batch, first header of this one)`
+across batches); and in an accepted file every header except the first passed
+`ValidatePair` (PrevBlock link, contextual check, sanity/proof of work) against
+its predecessor.  Together with `C14_success_partial` (what is appended is
+`file.drop k`, `k ≥ 1`, for file start 0) a header is appended only if its pair
+check passed. -/
+theorem C14_validator_obligations (body : List BHdr) (bs : Nat) (hbs : bs ≥ 1) :
+    validateBlocks body bs = validateWalk bs body.length none body ∧
+    (validateBlocks body bs = true → ∀ i a c, body[i]? = some a → body[i + 1]? = some c → pairOk a c = true) :=
+  ⟨validateBlocks_eq_walk body bs hbs, fun h i a c ha hc => validated_pairs body bs i a c h ha hc⟩
+
 /-- the validator's gap, as a fact of the model: with a first batch of two or
 more headers a file whose FIRST header fails the sanity check (bad proof of work)
 is accepted; with batch size 1 it is rejected -/
@@ -660,6 +676,9 @@ example : Healthy { exStores with filters := [1], ftip := some 0 } ∧
 -- the second identical import reports success and changes nothing
 example : importStores exFile { bs := 2 } (importStores exFile { bs := 2 } exStores).2 =
     (none, (importStores exFile { bs := 2 } exStores).2) := by decide
+-- the validator's walk on the example file, batch size 3 (7 headers: 3+3+1), and on a file with a broken link
+example : validateWalk 3 7 none exFile.blocks = true ∧
+    validateWalk 3 3 none [⟨1, 0, true⟩, ⟨2, 1, true⟩, ⟨3, 9, true⟩] = false := by decide
 -- the recorded shape really is what C14_success_counterexample uses
 example : f7Shape (obsOf cexStores) cexFile = true ∧ f7Shape (obsOf cexStores2) cexFile2 = true := by decide
 
